@@ -1725,6 +1725,7 @@ def digest_dir(d, stem="g"):
 def stage_determinism(work, tier, seed):
     """C17: the same (grammar, effective settings) compiled in fresh processes
     through the library API, the rcomp binary and directory processing."""
+    import itertools
     import subprocess
     from concurrent.futures import ThreadPoolExecutor
     rc = run.rcomp_bin()
@@ -1840,23 +1841,32 @@ def stage_determinism(work, tier, seed):
             fresh.append((g, 900 + pi, vb, via, 0))
     with ThreadPoolExecutor(max_workers=run.NCPU) as ex:
         events += list(ex.map(one, fresh))
-    # directory processing: all grammars in one tree, two layouts (different traversal orders)
-    for layout in (0, 1):
-        root = os.path.join(base, "dir%d" % layout)
-        outroot = os.path.join(base, "dirout%d" % layout)
+    # directory processing: all grammars in one tree, two layouts (different traversal orders),
+    # under the default settings and under GLR with the Arrays layout (tables of very different
+    # shape compiled one after the other in ONE process: nothing may carry over from one grammar
+    # to the next)
+    dir_vectors = [("", DET_DEFAULT), ("ga", dict(DET_DEFAULT, algo="glr", gen="arrays"))]
+    have = {(e["g"], json.dumps(e["given"], sort_keys=True)) for e in events}
+    solo = [(g, 950, dv, "api", 0) for _tag, dv in dir_vectors for g in gnames
+            if (g, json.dumps(dv, sort_keys=True)) not in have]
+    with ThreadPoolExecutor(max_workers=run.NCPU) as ex:
+        events += list(ex.map(one, solo))
+    for layout, (vtag, dv) in itertools.product((0, 1), dir_vectors):
+        root = os.path.join(base, "dir%d%s" % (layout, vtag))
+        outroot = os.path.join(base, "dirout%d%s" % (layout, vtag))
         # process_dir stops at the first grammar that fails, so only grammars that
-        # compile under the default settings take part
-        okg = [g for g in gnames if any(e["g"] == g and e["given"] == DET_DEFAULT and len(e["out"]) > 8 for e in events)]
+        # compile under these settings take part
+        okg = [g for g in gnames if any(e["g"] == g and e["given"] == dv and len(e["out"]) > 8 for e in events)]
         for k, g in enumerate(okg):
             sub = os.path.join(root, ("%02d_%s" % (k, g)) if layout == 0 else ("%02d_%s" % (len(gnames) - k, g)))
             os.makedirs(sub, exist_ok=True)
             open(os.path.join(sub, "g.rustemo"), "w").write(DET_GRAMMARS[g])
-        subprocess.run([rc, root] + cli_args(DET_DEFAULT, outroot), capture_output=True, text=True,
+        subprocess.run([rc, root] + cli_args(dv, outroot), capture_output=True, text=True,
                        env=run.clean_env(), timeout=300)
         for sub in sorted(os.listdir(root)):
             g = sub.split("_", 1)[1]
             od = os.path.join(outroot, sub)
-            events.append({"id": "%s/dir%d" % (g, layout), "g": g, "given": DET_DEFAULT, "via": "dir", "proc": layout,
+            events.append({"id": "%s/dir%d%s" % (g, layout, vtag), "g": g, "given": dv, "via": "dir", "proc": layout,
                            "out": digest_dir(od) if os.path.isdir(od) else "err"})
     # directory processing with exclusions, nested directories, in-source output: what the
     # library API writes for each file of the tree is what rcomp writes for it
@@ -2267,6 +2277,11 @@ def stage_codegen(work, tier, seed):
 T_NUMNAME = "Num: /\\d+/;\nName: /[a-z]+/;\n"
 # (name, grammar text, inputs, expected number of None (-1 = not judged) per input, lr_ok)
 AST_SHAPES = [
+    # regex terminals with a TOP-LEVEL alternation (the generated recognizer has to anchor all of it)
+    ("regex_alt", "S: Item+;\nItem: Num | Word;\nterminals\nNum: /\\d+/;\nWord: /foo|bar|bazz/;\n",
+     ["12 bar", "foo 12", "bar foo 7", "1 bazz 22 foo 3 bar"], None),
+    ("regex_alt_sep", "S: Num+[Word] Semi Word;\nterminals\nNum: /\\d+/;\nWord: /foo|bar|qux/;\nSemi: ';';\n",
+     ["1 ; bar", "1 bar 2 foo 3 ; qux"], None),
     ("enum_terms", "S: Num | Name;\nterminals\n" + T_NUMNAME, ["1", "ab"], None),
     ("struct2", "S: a=Num b=Name c=Num;\nterminals\n" + T_NUMNAME, ["1 ab 2"], None),
     ("calc", "E: left=E '+' right=E {Add, 1, left} | left=E '*' right=E {Mul, 2, left} | '(' E ')' {Paren} | Num;\n"
